@@ -591,6 +591,45 @@ func (e *Env) c16Worklist(g *core.XG, rtp *ssa.Function) bool {
 			if dbg {
 				fmt.Println("C16 worklist guards:", len(gs), "visited", visited)
 			}
+			if visited && inner.L != nil {
+				// polarity, by scenario over one iteration of the feeder loop: every membership lookup says "absent" ⇒ the
+				// push is reached; says "present" ⇒ it is not
+				test, _, okT := g.LoopTest(inner)
+				if okT {
+					mk := func(present bool) core.Scenario {
+						return core.Scenario{Start: test, Result: core.BoolAV(true), InstrResult: func(m *core.Node) (core.AV, bool) {
+							lk, ok := m.Instr.(*ssa.Lookup)
+							if !ok {
+								return core.Top, false
+							}
+							mt, ok := lk.X.Type().Underlying().(*types.Map)
+							if !ok || typeNameOf(mt.Elem()) != "WorkflowProcess" {
+								return core.Top, false
+							}
+							v := core.NilAV()
+							if present {
+								v = core.NonNilAV(core.ErrAny)
+							}
+							if lk.CommaOk {
+								return core.TupleAV(v, core.BoolAV(present)), true
+							}
+							return v, true
+						}}
+					}
+					isPush := func(m *core.Node) bool { return m == c }
+					stop := func(m *core.Node) bool { return m == test }
+					if g.Run(mk(false)).ReachesAvoiding(isPush, stop) == nil {
+						visited = false
+						ob3.Fail(g.Where(c), "the visited test has the wrong polarity: a feeder that is NOT yet in the closure is not put on the work list (only direct upstream processes are run)")
+					}
+					// (the converse - "present" never leads to the push - is implied by the visited guard found above; it is
+					// not re-derived by scenario, because a nil-process guard inside a membership helper makes its result
+					// false for reasons the scenario cannot exclude)
+				}
+				if !visited {
+					continue
+				}
+			}
 			if visited {
 				ob3.OK(g.Where(c), "pushed only when not yet in the closure: "+trunc(strings.Join(gs, " && "), 140))
 			} else {
